@@ -50,11 +50,18 @@ CODE_VERSION = json.load(open(os.path.join(SPEC, "code_version.json")))
 ALL = '{"Put","Get","Del","Len","Size","Range"}'
 PGD = '{"Put","Get","Del"}'
 PGDL = '{"Put","Get","Del","Len"}'
+PGDS = '{"Put","Get","Del","Size"}'
 
 
-def cfg(name, NT, OpsPer, Cap, sizes, inits, kinds, poison=0, maxel=8, nk=2):
+MAX3 = "6148914691236517205"     # 3 * MAX3 = math.MaxUint64
+HALF2 = "9223372036854775807"    # 2 * HALF2 = 2^64 - 2
+P62 = "4611686018427387904"      # 2^62: 4 * P62 wraps to exactly 0
+
+
+def cfg(name, NT, OpsPer, Cap, sizes, inits, kinds, poison=0, maxel=8, nk=2, scale="1"):
     return dict(name=name,
-                consts=dict(NT=NT, OpsPer=OpsPer, NK=nk, Cap=Cap, MaxEl=maxel, MaxPoison=poison),
+                consts=dict(NT=NT, OpsPer=OpsPer, NK=nk, Cap=Cap, MaxEl=maxel, MaxPoison=poison,
+                            Scale='"%s"' % scale),
                 defs=dict(Sizes=sizes, InitLists=inits, OpKinds=kinds))
 
 
@@ -70,6 +77,12 @@ def configs(tier):
                 # three keys: the only configurations in which eviction has a choice of victim
                 cfg("seqk3", 1, 4, 2, "<<1,2>>", "{<<>>, <<<<2,1>>,<<1,1>>>>}", PGD, nk=3),
                 cfg("seqk3c3", 1, 3, 3, "<<1,2>>", "{<<<<3,1>>,<<2,1>>,<<1,1>>>>, <<<<1,1>>,<<2,2>>>>}", ALL, poison=1, nk=3),
+                # a Put that evicts two or three entries with the failing value anywhere in eviction order
+                # (three values of size 1 that can be poisoned separately)
+                cfg("seqev", 1, 2, 3, "<<1,1,1,3>>", "{<<<<3,3>>,<<2,2>>,<<1,1>>>>}", ALL, poison=1, nk=3),
+                # sizes and capacity near 2^64 (capacity = math.MaxUint64): the abstract LRU is the same,
+                # the code's uint64 arithmetic must not wrap
+                cfg("seqmax", 1, 3, 3, "<<1,2,3>>", "{<<>>, <<<<1,2>>>>}", PGDS, nk=3, scale=MAX3),
                 cfg("c2x2", 2, 2, 2, "<<1,2>>", "{<<>>, <<<<1,1>>>>, <<<<2,1>>,<<1,1>>>>}", ALL, poison=1),
                 cfg("c3x1", 3, 1, 3, "<<1,2>>", "{<<>>, <<<<1,1>>>>, <<<<2,2>>,<<1,1>>>>}", ALL, poison=1),
             ]
@@ -85,6 +98,12 @@ def configs(tier):
             cfg("seqp", 1, 4, 2, "<<1,1,2>>", "{<<<<2,2>>,<<1,1>>>>, <<<<1,1>>,<<2,2>>>>}", ALL, poison=1),
             cfg("seqk3", 1, 6, 2, "<<1,2>>", "{<<>>, <<<<2,1>>,<<1,1>>>>}", PGD, nk=3),
             cfg("seqk3c3", 1, 4, 3, "<<1,2>>", "{<<<<3,1>>,<<2,1>>,<<1,1>>>>, <<<<1,1>>,<<2,2>>>>}", ALL, poison=1, nk=3),
+            cfg("seqev", 1, 3, 3, "<<1,1,1,3>>", "{<<<<3,3>>,<<2,2>>,<<1,1>>>>, <<<<1,1>>,<<2,2>>>>}", ALL, poison=2, nk=3),
+            cfg("seqev4", 1, 2, 4, "<<1,1,2,4>>", "{<<<<3,3>>,<<2,2>>,<<1,1>>>>}", ALL, poison=1, nk=3),
+            cfg("seqmax", 1, 5, 3, "<<1,2,3>>", "{<<>>, <<<<1,2>>>>}", PGDS, nk=3, scale=MAX3),
+            cfg("seqhalf", 1, 5, 2, "<<1,2>>", "{<<>>}", ALL, poison=1, nk=3, scale=HALF2),
+            cfg("seqp62", 1, 4, 3, "<<1,2,3>>", "{<<<<2,1>>,<<1,2>>>>}", PGDS, nk=3, scale=P62),
+            cfg("c2x2max", 2, 2, 3, "<<1,2>>", "{<<<<2,2>>,<<1,1>>>>}", PGDS, scale=MAX3),
             cfg("c2x2", 2, 2, 2, "<<1,2>>", "{<<>>, <<<<1,1>>>>, <<<<2,1>>,<<1,1>>>>}", ALL, poison=1),
             cfg("c2x2k3", 2, 2, 2, "<<1,2>>", "{<<<<2,1>>,<<1,1>>>>}", PGDL, nk=3),
             cfg("c2x3", 2, 3, 3, "<<1,2>>", "{<<<<2,2>>,<<1,1>>>>}", PGD),
@@ -105,10 +124,15 @@ def configs(tier):
 
 
 FREE = {
-    "quick": dict(traces=400, nt=3, ops=3, rounds=2, cap=2, sizes=[1, 2], nk=3, poison=True,
-                  kinds=["Put", "Put", "Get", "Del", "Len", "Size"]),
-    "thorough": dict(traces=12000, nt=3, ops=4, rounds=3, cap=3, sizes=[1, 2, 3], nk=3, poison=True,
-                     kinds=["Put", "Put", "Get", "Del", "Len", "Size"]),
+    # (two batches each: plain sizes, and sizes/capacity scaled so that the capacity is math.MaxUint64)
+    "quick": [dict(traces=300, nt=3, ops=3, rounds=2, cap=2, sizes=[1, 1, 2], nk=3, poison=True, scale="1",
+                   kinds=["Put", "Put", "Get", "Del", "Len", "Size"]),
+              dict(traces=100, nt=3, ops=3, rounds=2, cap=3, sizes=[1, 1, 2, 3], nk=3, poison=True, scale=MAX3,
+                   kinds=["Put", "Put", "Get", "Del", "Len", "Size"])],
+    "thorough": [dict(traces=9000, nt=3, ops=4, rounds=3, cap=3, sizes=[1, 1, 2, 3], nk=3, poison=True, scale="1",
+                      kinds=["Put", "Put", "Get", "Del", "Len", "Size"]),
+                 dict(traces=3000, nt=3, ops=4, rounds=3, cap=3, sizes=[1, 1, 2, 3], nk=3, poison=True, scale=MAX3,
+                      kinds=["Put", "Put", "Get", "Del", "Len", "Size"])],
 }
 
 ASSUMPTIONS = [
@@ -304,14 +328,18 @@ def judge_parallel(prop_id, traces, known, verdict, chunk_lines=30000, par=6):
 
 
 def free_run(binary, sc, tier, seed, first_id):
-    c = dict(FREE[tier])
-    if os.environ.get("VERIF_LRU_NOFREE"):               # development aid
-        c["traces"] = 0
-    c.update(seed=seed, first_id=first_id)
-    out = os.path.join(sc, "free.ndjson")
-    obs, log = family.run_driver(binary, "TestVerifLRUFree", "", out, sc,
-                                 env_extra={"VERIF_LRU_FREE": json.dumps(c)})
-    return obs, c
+    obs, cfgs = [], []
+    for i, c0 in enumerate(FREE[tier]):
+        c = dict(c0)
+        if os.environ.get("VERIF_LRU_NOFREE"):               # development aid
+            c["traces"] = 0
+        c.update(seed=seed, first_id=first_id + len(obs))
+        out = os.path.join(sc, "free%d.ndjson" % i)
+        o, log = family.run_driver(binary, "TestVerifLRUFree", "", out, sc,
+                                   env_extra={"VERIF_LRU_FREE": json.dumps(c)})
+        obs += o
+        cfgs.append(c)
+    return obs, {"batches": cfgs}
 
 
 def _log(t0, *a):
